@@ -653,6 +653,11 @@ def observed_trace(o, flags):
         tags.append(11)
     if body_failed:
         tags.append(12)
+        if o.get('log_source') == 'stdout':
+            # neither the log file nor the JSON reached the disk: the traceback the `except` clause adds to the in-memory log
+            # (add_msg does not print) cannot be observed; it is ASSUMED here, so that the shape predicates can be evaluated,
+            # and left out of the tag-by-tag comparison with the model (compare_mapping)
+            tags.append(13)
     if o['traceback_in_log_file'] or (not o['log_file'] and 13 in o['log_tags']):
         tags.append(13)                      # before the log file iff the file holds the traceback
     if not o['result_buffer_left']:
@@ -701,7 +706,7 @@ def compare_mapping(ctx, items):
         hk_m = hk_m[0] if hk_m else []
         prop_ok, failed_ok, no_csv, clean_ok, fin_ok, double_ok = chk[1]
         fin_pt = it.get('fin_point', 0)
-        faulted = it['fail_point'] != 0
+        faulted = it['fail_point'] != 0 or fin_pt != 0
         # (b) the property on the observation
         if faulted and it.get('expect_code') is not None and fin_pt == 7 and not prop_ok and not o['log_file'] \
                 and o['raised'] and 11 not in o['log_tags'] and not o['csv'] and o['json_keys'] is None and o['hdf5'] is None:
